@@ -41,14 +41,15 @@ type intrinsic func(i *Interp, fr *frame, fn *ssa.Function, args []value) value
 
 // Program is the shared, read-only part.
 type Program struct {
-	Prog      *ssa.Program
-	Pkgs      map[string]*ssa.Package
-	ModPath   string // module path of /repo
-	VrtPath   string
-	ModelPath string
+	Prog               *ssa.Program
+	Pkgs               map[string]*ssa.Package
+	ModPath            string // module path of /repo
+	VrtPath            string
+	ModelPath          string
 	runtimeErrorString types.Type
-	Sizes     types.Sizes
-	BlankImports map[*ssa.Package][]*ssa.Package
+	Sizes              types.Sizes
+	BlankImports       map[*ssa.Package][]*ssa.Package
+	InitVars           map[*ssa.Package][]*ssa.Global // package-level variables with an initialiser
 }
 
 type deferred struct {
@@ -82,6 +83,7 @@ type Interp struct {
 	w         *Worker
 	globals   map[*ssa.Global]*value
 	inited    map[*ssa.Package]int // 1 = in progress, 2 = done
+	initSteps int64
 	initDepth int
 	redirects map[*ssa.Function]value
 	intrCache map[*ssa.Function]intrinsic
@@ -91,17 +93,17 @@ type Interp struct {
 	frameSer  int
 	funcsSeen map[string]int // /repo functions interpreted (shared across paths of the worker)
 	// goroutines
-	cur   *gor
-	gors  []*gor
-	dead  bool
+	cur          *gor
+	gors         []*gor
+	dead         bool
 	stateVersion int
-	killAck chan struct{}
-	clock int64 // virtual nanoseconds
-	timers []*timer
-	trace bool
-	cfg   *Config
-	typeCache map[string]types.Type
-	persistSide map[interface{}]interface{}
+	killAck      chan struct{}
+	clock        int64 // virtual nanoseconds
+	timers       []*timer
+	trace        bool
+	cfg          *Config
+	typeCache    map[string]types.Type
+	persistSide  map[interface{}]interface{}
 }
 
 func (i *Interp) abort(st status, why string) {
@@ -239,10 +241,12 @@ func (i *Interp) ensureInit(pkg *ssa.Package) {
 				switch r := r.(type) {
 				case pathAbort:
 					if r.st == stInconclusive {
-						// package init could not be completed: affected globals keep zero/poison
+						// package init could not be completed: variables whose initialiser
+						// did not run (still zero) become poison, never a silent zero
 						if i.trace {
 							fmt.Fprintf(os.Stderr, "init of %s incomplete: %s\n", pkg.Pkg.Path(), r.why)
 						}
+						i.poisonUninitialised(pkg, "init of "+pkg.Pkg.Path()+" incomplete: "+r.why)
 						return
 					}
 					panic(r)
@@ -250,6 +254,7 @@ func (i *Interp) ensureInit(pkg *ssa.Package) {
 					if i.trace {
 						fmt.Fprintf(os.Stderr, "init of %s panicked: %s\n", pkg.Pkg.Path(), toString(r.v))
 					}
+					i.poisonUninitialised(pkg, "init of "+pkg.Pkg.Path()+" panicked: "+toString(r.v))
 					return
 				default:
 					panic(r)
@@ -303,7 +308,13 @@ const (
 
 func (i *Interp) step() {
 	if i.initDepth > 0 {
-		return // package initialisation is not charged to the path's budget
+		// package initialisation is not charged to the path's budget, but is bounded
+		i.initSteps++
+		if i.initSteps > 400000000 {
+			i.initSteps = 0
+			i.abort(stInconclusive, "package initialisation does not terminate within 4e8 instructions")
+		}
+		return
 	}
 	i.steps++
 	if i.steps > i.cfg.StepBudget {
@@ -1456,4 +1467,51 @@ func callerName(fr *frame) string {
 		fr = fr.caller
 	}
 	return out
+}
+
+// poisonUninitialised marks the package-level variables of pkg that have an
+// initialiser but still hold their zero value (the initialiser did not run, or
+// legitimately produced zero - then this is only conservative).
+func (i *Interp) poisonUninitialised(pkg *ssa.Package, why string) {
+	for _, g := range i.P.InitVars[pkg] {
+		cell, ok := i.globals[g]
+		if !ok {
+			c := value(poison{why})
+			i.globals[g] = &c
+			continue
+		}
+		if isZeroValue(*cell) {
+			*cell = poison{why}
+		}
+	}
+}
+
+func isZeroValue(v value) bool {
+	switch x := v.(type) {
+	case nil:
+		return true
+	case *smt.Term:
+		return x.IsConst() && x.C == 0
+	case Str:
+		return !x.opaque && x.sym == nil && x.s == ""
+	case iface:
+		return x.t == nil
+	case *value:
+		return x == nil
+	case structure:
+		for _, f := range x {
+			if !isZeroValue(f) {
+				return false
+			}
+		}
+		return true
+	case array:
+		for _, f := range x {
+			if !isZeroValue(f) {
+				return false
+			}
+		}
+		return true
+	}
+	return isNilValue(v)
 }
